@@ -7,8 +7,12 @@ package verifrt
 
 import (
 	"bytes"
+	"net"
+
 	"encoding/json"
 	"fmt"
+	"github.com/cenkalti/rpc2"
+	"github.com/cenkalti/rpc2/jsonrpc"
 	"math"
 	"os"
 	"reflect"
@@ -69,6 +73,7 @@ func Reset() {
 	pos = 0
 	Failures, Reached, Observed = nil, nil, nil
 	expectP = false
+	rpcCalls = 0
 }
 
 func next(kind string) rec {
@@ -293,3 +298,41 @@ func LazyJSON(depth, width int, keyMenu string) []byte {
 
 // Note prints a diagnostic natively (never compared with the executor; ignored there).
 func Note(tag string, v interface{}) { fmt.Printf("VERIF-NOTE: %s=%v\n", tag, v) }
+
+// RPCPeer answers calls made through a client created by NewRPCClient: it receives the method name and the
+// JSON-encoded positional arguments and returns the reply value (encoded to JSON for the caller) or an error.
+type RPCPeer func(method string, args []json.RawMessage) (interface{}, error)
+
+var rpcMethods = []string{"update", "update2", "update3", "transact", "monitor", "monitor_cond", "monitor_cond_since",
+	"monitor_cancel", "get_schema", "list_dbs", "echo", "lock", "steal", "unlock"}
+
+var rpcCalls int
+
+// NewRPCClient returns an rpc2 client whose calls are answered by peer. In the executor the call is made
+// synchronously on JSON trees; natively a real rpc2 client talks to a real rpc2 server over net.Pipe.
+func NewRPCClient(peer RPCPeer) *rpc2.Client {
+	c1, c2 := net.Pipe()
+	srv := rpc2.NewServer()
+	for _, m := range rpcMethods {
+		method := m
+		srv.Handle(method, func(_ *rpc2.Client, args []json.RawMessage, reply *interface{}) error {
+			mu.Lock()
+			rpcCalls++
+			mu.Unlock()
+			r, err := peer(method, args)
+			if err != nil {
+				return err
+			}
+			*reply = r
+			return nil
+		})
+	}
+	go srv.ServeCodec(jsonrpc.NewJSONCodec(c2))
+	client := rpc2.NewClientWithCodec(jsonrpc.NewJSONCodec(c1))
+	client.SetBlocking(true)
+	go client.Run()
+	return client
+}
+
+// RPCCalls returns the number of calls answered by peers so far.
+func RPCCalls() int { mu.Lock(); defer mu.Unlock(); return rpcCalls }
